@@ -3,6 +3,7 @@ package engine
 import (
 	"fmt"
 	"reflect"
+	"go/constant"
 	"go/token"
 	"go/types"
 	"strings"
@@ -71,8 +72,22 @@ func (fr *frame) externalModel(name string, cc *ssa.CallCommon, args []T, st *St
 		e := c.fresh("err", "Iface")
 		c.assume(st, Not(IsNilIface(e)))
 		return []T{e}, true
-	case "fmt.Sprintf", "fmt.Sprint", "fmt.Sprintln":
+	case "fmt.Sprintf":
+		if r, ok := fr.sprintfModel(cc); ok {
+			return []T{r}, true
+		}
 		return []T{c.fresh("sprintf", "Str")}, true
+	case "fmt.Sprint", "fmt.Sprintln":
+		return []T{c.fresh("sprintf", "Str")}, true
+	case "reflect.MapOf":
+		c.declRT()
+		return []T{app("Iface", "rt_mapof", args[0], args[1])}, true
+	case "reflect.PtrTo", "reflect.PointerTo":
+		c.declRT()
+		return []T{app("Iface", "rt_ptrto", args[0])}, true
+	case "reflect.SliceOf":
+		c.declRT()
+		return []T{app("Iface", "rt_sliceof", args[0])}, true
 	case "encoding/json.Unmarshal":
 		// target: the pointer boxed in args[1]
 		if mi, ok := cc.Args[1].(*ssa.MakeInterface); ok {
@@ -372,4 +387,134 @@ func (c *Ctx) jsonField(data T, name string, t types.Type, st *State) T {
 		c.assumeValid(st, v, t)
 	}
 	return v
+}
+
+// declRT: reflect.MapOf / PtrTo / SliceOf as free constructors on reflect.Type values.
+func (c *Ctx) declRT() {
+	c.R.UFun("rt_mapof", "(declare-fun rt_mapof (Iface Iface) Iface)\n(declare-fun rt_ptrto (Iface) Iface)\n(declare-fun rt_sliceof (Iface) Iface)\n"+
+		"(assert (forall ((a Iface) (b Iface)) (! (not ((_ is inil) (rt_mapof a b))) :pattern ((rt_mapof a b)))))\n"+
+		"(assert (forall ((a Iface)) (! (not ((_ is inil) (rt_ptrto a))) :pattern ((rt_ptrto a)))))\n"+
+		"(assert (forall ((a Iface)) (! (not ((_ is inil) (rt_sliceof a))) :pattern ((rt_sliceof a)))))")
+}
+
+// sprintfModel: fmt.Sprintf with a constant format made of literal text and %s
+// verbs, every operand a string: the result is the left-to-right concatenation
+// (the same term a Go expression "lit" + a + "lit" + b builds).
+func (fr *frame) sprintfModel(cc *ssa.CallCommon) (T, bool) {
+	c := fr.c
+	k, ok := cc.Args[0].(*ssa.Const)
+	if !ok || k.Value == nil || k.Value.Kind() != constant.String {
+		return T{}, false
+	}
+	format := constant.StringVal(k.Value)
+	var elems []ssa.Value
+	if len(cc.Args) > 1 {
+		var ok2 bool
+		elems, ok2 = variadicElems(cc.Args[1])
+		if !ok2 {
+			return T{}, false
+		}
+	}
+	var parts []T
+	lit := ""
+	ai := 0
+	for i := 0; i < len(format); i++ {
+		if format[i] != '%' {
+			lit += string(format[i])
+			continue
+		}
+		if i+1 >= len(format) {
+			return T{}, false
+		}
+		i++
+		switch format[i] {
+		case '%':
+			lit += "%"
+		case 's':
+			if ai >= len(elems) {
+				return T{}, false
+			}
+			mi, ok := elems[ai].(*ssa.MakeInterface)
+			if !ok {
+				return T{}, false
+			}
+			if b, ok := under(mi.X.Type()).(*types.Basic); !ok || b.Kind() != types.String {
+				return T{}, false
+			}
+			if lit != "" {
+				parts = append(parts, c.R.StrLit(lit))
+				lit = ""
+			}
+			parts = append(parts, fr.val(mi.X))
+			ai++
+		default:
+			return T{}, false
+		}
+	}
+	if ai != len(elems) {
+		return T{}, false
+	}
+	if lit != "" {
+		parts = append(parts, c.R.StrLit(lit))
+	}
+	if len(parts) == 0 {
+		return c.R.StrLit(""), true
+	}
+	r := parts[0]
+	for _, p := range parts[1:] {
+		r = app("Str", "strcat", r, p)
+	}
+	return r, true
+}
+
+// variadicElems: the values stored into the backing array of a variadic
+// argument slice built at the call site (new [n]T; store each; slice).
+func variadicElems(v ssa.Value) ([]ssa.Value, bool) {
+	sl, ok := v.(*ssa.Slice)
+	if !ok {
+		if k, isConst := v.(*ssa.Const); isConst && k.IsNil() {
+			return nil, true
+		}
+		return nil, false
+	}
+	al, ok := sl.X.(*ssa.Alloc)
+	if !ok {
+		return nil, false
+	}
+	arr, ok := under(deref(al.Type())).(*types.Array)
+	if !ok {
+		return nil, false
+	}
+	out := make([]ssa.Value, arr.Len())
+	refs := al.Referrers()
+	if refs == nil {
+		return nil, false
+	}
+	for _, in := range *refs {
+		ia, ok := in.(*ssa.IndexAddr)
+		if !ok {
+			continue
+		}
+		k, ok := ia.Index.(*ssa.Const)
+		if !ok {
+			return nil, false
+		}
+		idx := k.Int64()
+		if ir := ia.Referrers(); ir != nil {
+			for _, u := range *ir {
+				if st, ok := u.(*ssa.Store); ok && st.Addr == ia {
+					if idx < 0 || idx >= int64(len(out)) || out[idx] != nil {
+						return nil, false
+					}
+					out[idx] = st.Val
+				}
+			}
+		}
+	}
+	for _, o := range out {
+		if o == nil {
+			return nil, false
+		}
+	}
+	return out, true
 }
